@@ -2,7 +2,7 @@ SPEC = dict(
     id="C05",
     bin="c05",
     coq_dir="C05",
-    coq_targets=["C05/Proofs.vo", "C05/Examples.vo"],
+    coq_targets=["C05/Proofs.vo", "C05/Sort.vo", "C05/Examples.vo"],
     allowed_axioms=[],
     level_text=("Unbounded Coq theorems about an executable model of write-fonts' offset packer: for EVERY object map and "
                 "every layout that lists each object once, is closed under links, puts parents before children and passes the "
